@@ -103,6 +103,7 @@ Definition expand_side (tbl : list (list N)) (r : rside) : side :=
 
 Record rcase := mkrcase {
   rc_K : nat; rc_nb : nat; rc_clone : bool;
+  rc_nopunch : bool;            (* the prehistory ran with reclamation off *)
   rc_pre : list op;             (* the source's history before the rebuild / clone starts *)
   rc_fork : option nat;         (* rebuild: the destination was in sync with the source after [k] of them *)
   rc_dpre : list op;            (* ... and then wrote this on its own (writes only) *)
@@ -125,20 +126,23 @@ Definition positional (own : dd) (c n : nat) : dd :=
 
 Definition init_case (fx : bool) (c : rcase) : rb :=
   let K := rc_K c in
-  let d00 := init (rc_nb c) true in
+  let d00 := init (rc_nb c) (negb (rc_nopunch c)) in
+  let on := [SetPunch true] in                       (* reclamation is on in a replica that is in service *)
   if rc_clone c then
-    let s := blk_run fx K d00 (rc_pre c) in
+    let s := blk_run fx K d00 (rc_pre c ++ on) in
     clone_init s (find_name s (rc_snap c) (nf s))
   else
     match rc_fork c with
     | None =>
-        let s := blk_run fx K d00 (rc_pre c ++ [Snap addname false]) in
+        let s := blk_run fx K d00 (rc_pre c ++ on ++ [Snap addname false]) in
         let own := blk_run fx K (init (rc_nb c) false) [Snap addname false] in
         rebuild_init s (positional own 0 (nf s)) 0
     | Some k =>
         let dk := blk_run fx K d00 (firstn k (rc_pre c)) in
-        let s := blk_run fx K dk (skipn k (rc_pre c) ++ [Snap addname false]) in
-        let own := blk_run fx K (fst (reopen dk false)) (rc_dpre c ++ [Snap addname false]) in
+        let s := blk_run fx K dk (skipn k (rc_pre c) ++ on ++ [Snap addname false]) in
+        (* the member starts (Open preloads its block map, punching still off), then runs on its own *)
+        let own := blk_run fx K dk ([SetPunch false; Reopen true; SetPunch (negb (rc_nopunch c))] ++ rc_dpre c
+                                    ++ [Snap addname false]) in
         rebuild_init s (positional own (nf dk - 1) (nf s)) (nf dk - 1)
     end.
 
